@@ -206,7 +206,7 @@ def run_binary(args, stdin_data=b"", release=False, timeout=30, env=None, cwd=No
     e.pop("P2SH_VERIF_REPL_STDIN", None) if env is None else None
     if step_budget is not None:
         e["P2SH_VERIF_STEP_BUDGET"] = str(step_budget)
-    e.setdefault("RUST_BACKTRACE", "0")
+    e["RUST_BACKTRACE"] = "0"
     try:
         p = subprocess.Popen([exe] + list(args),
                              stdin=(stdin_file if stdin_file is not None else subprocess.PIPE),
